@@ -77,6 +77,7 @@ def run(tier, wd):
             continue
         rep.violation("%s: variable is %s (ran=%s err=%s), specification says %s" % (vc.describe(case), r["value"], r["ran"], r.get("err"), want),
                       {"engine": "values", "case": case, "expected": want, "expected_with_listed_deviation": devwant})
+    vc.pair_part(rep, wd, binpath, rnd, "c06-pair", 1 if q else 6)
     rep.cov["distinct_nontrivial"] = nontriv
     rep.cov["exhaustive"] = True
     rep.cov["rule"] = ("7 built-in types x option/argument x plain/Ptr entry point (struct forms; plus the convenience methods without environment) x default(s) x every list of <= %d environment variables each unset, empty, "
@@ -87,4 +88,4 @@ def run(tier, wd):
 
 
 def replay(path, wd):
-    return vc.replay_values(path, wd, lambda o, r: not (r.get("ran") and r.get("value") == o["expected"]))
+    return vc.replay_values(path, wd, lambda o, r: vc.pair_replay_bad(o, r) if "expected2" in o else not (r.get("ran") and r.get("value") == o["expected"]))
